@@ -332,12 +332,20 @@ def judge_congress(c, o):
     prev_after = None
     for i, (ms, rs) in enumerate(zip(c["steps"], o["steps"])):
         # every format call of the interval
-        for g, held_b, draw_b, used, ninner, fwd_b, ok in rs["calls"]:
-            held = 1.0 if held_b is None else bits_f32(held_b)
+        prev_total = sum(c["steps"][i - 1]["vol"]) if i > 0 else 0
+        for g, held_b, is_new, draw_b, used, ninner, fwd_b, ok in rs["calls"]:
+            if held_b is None:
+                return f"{what}, interval {i + 1}: group g{g} is not tracked after one of its entries was formatted", None
+            held = bits_f32(held_b)
             inner = [["UNSAMPLED", 0]] if ninner < 0 else [["g", fwd_b]] * ninner
             v = judge_decision(held, bits_f32(draw_b), used, inner, f"{what}, interval {i + 1}, group g{g}")
             if v:
                 return v, None
+            if not (held > 0.0 and held <= 1.0):
+                return f"{what}, interval {i + 1}: group g{g} is sampled at rate {held!r}, outside (0, 1]", None
+            if prev_total <= T and held != 1.0:
+                return (f"{what}, interval {i + 1}: the previous interval saw {prev_total} <= target {T} entries but "
+                        f"{'new ' if is_new else ''}group g{g} is sampled at rate {held!r} instead of 1"), None
             if prev_after is not None and drift is None:
                 m = prev_after[g - 1]
                 exp = F(*m["rate"]) if m["present"] else F(1)
